@@ -3,10 +3,10 @@ LEVEL = "model_checking"
 MIRSYM = "C08"
 BOUNDS = ("accounting kernels (BoundedWriter::write, BatchResponseBuilder::append): all 64-bit limits/lengths (lengths < 2^63); every path of MethodResponse::response: success and "
           "error payloads alike are serialised into the bounded writer; BatchResponseBuilder new_with_limit..append*..finish end to end for 0..2 appended responses of any length; "
-          "limit provenance: every value of the two size limits")
+          "limit provenance: every value of the two size limits; RpcService::new and the soketto size setters on every route")
 EXPLANATION = ("Symbolic execution of rustc MIR of BoundedWriter::write, BatchResponseBuilder::{new_with_limit,append,finish} and MethodResponse::response with string/vector "
                "lengths as 64-bit symbols, post-conditions discharged by z3 (cvc5 cross-check); provenance of the response limit to every callback and every reply "
-               "through the writer that enforces it.")
+               "through the writer that enforces it. The response limit reaches only the RPC service and the sink - never the WebSocket frame reader.")
 TRUSTED = ["rustc MIR dump (nightly) faithfully reflects the compiled code", "z3 / cvc5", "length contracts of String/Vec/str methods (listed under coverage.models)",
            "serde_json writes exactly the bytes it hands to the io::Write it is given"]
 OUTSIDE = ["the fixed 'too big' error object itself may exceed tiny limits (the property exempts it)",
